@@ -91,6 +91,8 @@ def parseOp (s : String) : Option Op :=
   | ["rmdir", p, _] => some (.rmdir (parsePath p))
   -- the same UNLINK, with a second client's first LOOKUP of the parent directory in flight
   | ["race", p] => some (.unlink (parsePath p))
+  -- the same SETATTR with a handle from a read-only open passed along
+  | ["chmod", p, m, _] => some (.chmod (parsePath p) (parseOct m))
   | ["open", p, f] => some (.open (parsePath p) (parseFlag f))
   | ["write", p, f, o, d] => some (.write (parsePath p) (parseFlag f) (o.toNat?.getD 0) (parseChunks d))
   | ["read", p] => some (.read (parsePath p))
